@@ -86,7 +86,12 @@ fn draw_seg_domain(r: &mut Rng) -> (u8, i64, i64) {
 
 fn base_cfg(prop: &str, world: WorldKind, colls: u8, oracles: u32, r: &mut Rng) -> Cfg {
     let universe = *r.pick(&[3, 5, 8, 8, 16, 16, 64, 1024, 1 << 20]);
-    let cap = *r.pick(&[0usize, 1, 8, 8, 9, 64, 1000]);
+    // capacity hints: the documented small ones, and now and then one beyond 4 096 / 65 536 slots
+    let cap = match r.below(40) {
+        0 => 5000usize,
+        1 => 70_000,
+        _ => *r.pick(&[0usize, 1, 8, 8, 9, 64, 1000]),
+    };
     let key_lo = *r.pick(&[0, 0, -5, 1000, -(1 << 20), i32::MAX - (1 << 21)]);
     let t0 = *r.pick(&[0, 0, 0, 5, 1000, 1 << 30]);
     let (seg_ty, seg_lo, seg_hi) = if world == WorldKind::Seg { draw_seg_domain(r) } else { (0, 0, 31) };
@@ -152,7 +157,9 @@ pub fn draw_plan(prop: &str, index: u64, r: &mut Rng, thorough: bool) -> RunPlan
         }
         "C11" => {
             let mut c = base_cfg(prop, pick_world3(index), C_TREE, O_ARENA, r);
-            c.cap = *r.pick(&[0usize, 1, 8, 9, 9, 64, 1000]);
+            if c.cap < 5000 {
+                c.cap = *r.pick(&[0usize, 1, 8, 9, 9, 64, 1000]);
+            }
             // long churn at small live population
             if r.chance(1, 3) {
                 len = if thorough { r.range(2000, 20000) as usize } else { r.range(500, 3000) as usize };
@@ -216,6 +223,15 @@ pub fn draw_plan(prop: &str, index: u64, r: &mut Rng, thorough: bool) -> RunPlan
         "C20" => base_cfg(prop, WorldKind::Key, C_TREE | C_LIST, O_MON, r),
         _ => panic!("unknown property {}", prop),
     };
+    // an arena of tens of thousands of slots is snapshotted after every operation by the
+    // structural checks: affordable for short histories only
+    let mut cfg = cfg;
+    if cfg.cap > 10_000 && len > 60 {
+        cfg.cap = 5000;
+    }
+    if cfg.cap >= 5000 && len > 600 {
+        cfg.cap = 1000;
+    }
     // large trees (deeper than 32 levels) are out of reach of short histories: a few runs of the
     // tree-only map / set checks start from a bulk build
     let mut ord_bulk = None;
